@@ -19,6 +19,21 @@ fn any_digest(maxlen: usize) -> String {
 pub fn any_revision(depth: usize, maxlen: usize) -> Revision {
     let mut r = Revision::new(1u32, any_digest(maxlen), None);
     for _ in 0..depth {
+        let parent_text = r.to_string();
+        r = derive(&r, maxlen);
+        // the identifier is a pure function of (content digest, parent identifier): index = parent index + 1 and
+        // the tail is the first 7 hex characters of the digest of the parent's identifier text
+        let expected_tail = digest_string(&parent_text)[..7].to_string();
+        let text = r.to_string();
+        assert!(text.ends_with(&format!("_{}", expected_tail)), "tail is not derived from the parent identifier");
+        assert!(text.starts_with(&format!("{}-", Revision::from(&parent_text).unwrap().index() + 1)), "index is not parent index + 1");
+    }
+    r
+}
+
+fn derive(r0: &Revision, maxlen: usize) -> Revision {
+    let mut r = r0.clone();
+    {
         match sym::choose(4) {
             0 => r = Revision::new_updated(any_digest(maxlen), &r),
             1 => r = Revision::new_deleted(&r),
